@@ -224,6 +224,16 @@ func (it *k4interp) call(f *ssa.Function, args []k4val, fvs []k4val) ([]k4val, e
 				if x.Op == token.MUL {
 					_, _ = it.eval(fr, x)
 				}
+			case *ssa.Lookup:
+				if _, err := it.eval(fr, x); err == errK4Undecided {
+					return nil, err
+				}
+			case *ssa.MapUpdate:
+				mv, err1 := it.eval(fr, x.Map)
+				kv, err2 := it.eval(fr, x.Key)
+				if err1 == nil && err2 == nil {
+					it.effects = append(it.effects, "mapupdate("+mv.String()+","+kv.String()+")")
+				}
 			case ssa.Value:
 				// pure: evaluated lazily
 			}
@@ -735,6 +745,40 @@ func (it *k4interp) eval1(fr *k4frame, v ssa.Value) (k4val, error) {
 			return t.tup[x.Index], nil
 		}
 		return it.opaque(fr, x)
+	case *ssa.Lookup:
+		// map lookup: an opaque query named by its evaluated key
+		mv, err := it.eval(fr, x.X)
+		if err != nil {
+			return mv, err
+		}
+		iv, err := it.eval(fr, x.Index)
+		if err != nil {
+			return iv, err
+		}
+		ks := iv.String()
+		if iv.kind == 3 {
+			if st, ok := x.Index.Type().Underlying().(*types.Struct); ok {
+				var parts []string
+				for i := 0; i < st.NumFields(); i++ {
+					fv, err := it.lookup(iv.s+"."+st.Field(i).Name(), st.Field(i).Type())
+					if err != nil {
+						return fv, err
+					}
+					parts = append(parts, fv.String())
+				}
+				ks = "{" + strings.Join(parts, ",") + "}"
+			}
+		}
+		key := "lookup(" + mv.String() + "," + ks + ")"
+		it.calls = append(it.calls, key)
+		if x.CommaOk {
+			okv, err := it.lookup(key+"#ok", boolT)
+			if err != nil {
+				return okv, err
+			}
+			return k4val{kind: 5, tup: []k4val{{kind: 3, s: key}, okv}}, nil
+		}
+		return it.lookup(key, x.Type())
 	case *ssa.MakeSlice:
 		l, err := it.eval(fr, x.Len)
 		if err != nil {
